@@ -269,6 +269,31 @@ def run(cx, rep):
     if ta:
         fields = [f["name"] for f in ta["variants"][0]["fields"]]
         rep.ob("C09.2", "TypeAddress/has-file", "file" in fields and "name" in fields, "TypeAddress must carry both file and name (fields %s)" % fields, "%s:%s" % (ta["file"], ta["line"]))
+    # ---------------------------------------------------------------- C09.6
+    rep.rule("C09.6", "disambiguation of same-named types looks at every kind of name that carries a file address")
+    rn = F.adts.get("RuntypeName")
+    tis = [f for f in F.fns.values() if f.name == "ts_identifier" and f.impl_self == "TypeAddress" and f.id in F.hir]
+    if rn is None or len(tis) != 1:
+        rep.anchor_missing("C09.6", "RuntypeName / TypeAddress::ts_identifier")
+    else:
+        carrying = {v["name"] for v in rn["variants"] if any("TypeAddress" in fl["ty"] for fl in v["fields"])}
+        seen_v = set()
+        for n in walk(F.hir[tis[0].id]["body"]):
+            pats = []
+            if n["k"] == "Match":
+                pats = [a["pat"] for a in n["arms"]]
+            elif n["k"] in ("Let", "LetStmt"):
+                pats = [n["pat"]]
+            for p0 in pats:
+                for x in walk(p0):
+                    d = x.get("def") or ""
+                    if d.startswith("RuntypeName::") and x["k"] in ("P.Struct", "P.TupleStruct"):
+                        # only patterns that bind the address count as "considered"
+                        if any(b["k"] == "P.Binding" for b in walk(x)):
+                            seen_v.add(d.rsplit("::", 1)[-1])
+        rep.ob("C09.6", "ts_identifier/variants", carrying <= seen_v,
+               "TypeAddress::ts_identifier decides whether a printed name needs its file prefix by looking at the other names, but ignores the %s variant(s) of RuntypeName, which also carry a file address: same-named declarations of different files then print the same identifier and collapse" % sorted(carrying - seen_v),
+               tis[0].loc(), sample={"address_carrying_variants": sorted(carrying), "considered": sorted(seen_v)})
     # ---------------------------------------------------------------- C09.4
     rep.rule("C09.4", "lossy mangling of file names into identifiers is checked for collisions")
     mang = [f for f in F.fns.values() if f.name == "to_valid_ts_identifier" or f.name == "ts_identifier"]
